@@ -114,10 +114,11 @@ class QueriesLeg(object):
                                   "strand": draw(st.sampled_from(["+", "-", "."]))})
             for a in added:  # and ask about the place where they will land, before and after the update
                 for w in (True, False):
-                    qs.append({"kind": "region", "form": "tuple", "start": max(1, a["start"] - 2), "end": a["end"] + 2, "seqid": a["seqid"],
-                               "within": w, "strand": None, "featuretype": None, "fstrand": "+"})
-                    qs.append({"kind": "limit", "form": "tuple", "method": "all_features", "start": max(1, a["start"] - 2), "end": a["end"] + 2,
-                               "seqid": a["seqid"], "within": w, "strand": None, "featuretype": None})
+                    for margin in (2, 200000):  # tightly around it, and from a neighbouring bin
+                        qs.append({"kind": "region", "form": "tuple", "start": max(1, a["start"] - margin), "end": a["end"] + margin,
+                                   "seqid": a["seqid"], "within": w, "strand": None, "featuretype": None, "fstrand": "+"})
+                        qs.append({"kind": "limit", "form": "tuple", "method": "all_features", "start": max(1, a["start"] - margin),
+                                   "end": a["end"] + margin, "seqid": a["seqid"], "within": w, "strand": None, "featuretype": None})
             return {"features": feats, "queries": qs, "added": added, "move": draw(st.booleans()),
                     "shift": draw(st.sampled_from([0, 0, 0, 1 << 17, (1 << 20) + 5, 131070]))}
 
